@@ -143,13 +143,16 @@ func decideOnce(p *lang.Program, inputs map[string]*lang.Val, hostMod bool) verd
 		bcfg.Modules = bridge.HostModuleMap()
 	}
 	res := bridge.Run(src, mods, inputs, bcfg)
+	if res.Retried {
+		ev.Note("slow run repeated with the long timeout")
+	}
 	v := verdict{ref: o, res: res}
 	switch res.Status {
 	case "panic":
 		v.fail = fmt.Sprintf("panic escaped the Script API: %s", res.ErrText)
 		return v
 	case "timeout":
-		v.fail = fmt.Sprintf("reference terminates in %d steps but the run did not finish in 5s", o.Stats.Steps)
+		v.fail = fmt.Sprintf("reference terminates in %d steps but the run did not finish in 5 s, nor in %v when repeated", o.Stats.Steps, bridge.SlowRetry)
 		return v
 	}
 	if res.Status != o.Status {
